@@ -128,6 +128,35 @@ func (c *Ctx) hasFlagGuard(pkg *packages.Package, n ast.Node, desc ast.Expr, des
 // reassigned afterwards).
 func (c *Ctx) GuardsDeep(n ast.Node) []Guard {
 	var res []Guard
+	// facts from short circuit evaluation inside the expression n is part of: in A && B, B runs only if A is true;
+	// in A || B only if A is false
+	for cur := n; cur != nil; {
+		p := c.Parent(cur)
+		be, ok := p.(*ast.BinaryExpr)
+		if !ok {
+			if _, isParen := p.(*ast.ParenExpr); isParen {
+				cur = p
+				continue
+			}
+			if _, isCall := p.(*ast.CallExpr); isCall {
+				cur = p
+				continue
+			}
+			if _, isUnary := p.(*ast.UnaryExpr); isUnary {
+				cur = p
+				continue
+			}
+			if _, isSel := p.(*ast.SelectorExpr); isSel {
+				cur = p
+				continue
+			}
+			break
+		}
+		if (be.Op == token.LAND || be.Op == token.LOR) && be.Y == cur {
+			expandGuard(be.X, be.Op == token.LAND, &res)
+		}
+		cur = p
+	}
 	for cur := n; cur != nil; {
 		fn := c.EnclosingFunc(cur)
 		if fn == nil {
@@ -571,7 +600,123 @@ func ruleR023(c *Ctx) {
 						return true
 					}
 					sel, ok := ast.Unparen(call.Fun).(*ast.SelectorExpr)
-					if !ok || sel.Sel.Name != "Func" || !isNamed(info.TypeOf(sel.X), modPath+"/funcGen", "Function") {
+					if !ok {
+						return true
+					}
+					// the implementation of a binary operator bound at compile time: op := operator.Impl ... op.Calc(st, a, b)
+					if sel.Sel.Name == "Calc" && isNamed(info.TypeOf(sel.X), modPath+"/funcGen", "OperatorImpl") {
+						if oid, ok := ast.Unparen(sel.X).(*ast.Ident); ok {
+							oobj := info.ObjectOf(oid)
+							if oobj != nil && !(oobj.Pos() >= lit.Pos() && oobj.Pos() <= lit.End()) {
+								nChildren++
+								found := false
+								if as, i := definingAssign(info, gi.decl, oobj); as != nil && len(as.Lhs) == len(as.Rhs) {
+									if isel, ok := ast.Unparen(as.Rhs[i]).(*ast.SelectorExpr); ok && isel.Sel.Name == "Impl" {
+										if did, ok := ast.Unparen(isel.X).(*ast.Ident); ok {
+											for _, cj := range cs {
+												if s, ok := cj.(*ast.SelectorExpr); ok && s.Sel.Name == "IsPure" {
+													if sid, ok := ast.Unparen(s.X).(*ast.Ident); ok && info.ObjectOf(sid) == info.ObjectOf(did) {
+														found = true
+													}
+												}
+											}
+										}
+									}
+								}
+								// impl := fg.GetOpImpl(op.Operator) inside `case "&":` of a custom generator: the operator is
+								// the one this package registers under that name; pure if registered by a method that fixes
+								// isPure to true (AddOp, AddOpImpl, AddSimpleOp) or with the constant true
+								if !found {
+									if as, i := definingAssign(info, gi.decl, oobj); as != nil && len(as.Lhs) == len(as.Rhs) {
+										if gcall, ok := ast.Unparen(as.Rhs[i]).(*ast.CallExpr); ok {
+											if cal := Callee(info, gcall); cal != nil && cal.Name() == "GetOpImpl" {
+												var names []string
+												for q := c.Parent(as); q != nil && q != ast.Node(gi.decl); q = c.Parent(q) {
+													if cc, ok := q.(*ast.CaseClause); ok {
+														for _, e := range cc.List {
+															if tv := info.Types[e]; tv.Value != nil && tv.Value.Kind() == constant.String {
+																names = append(names, constant.StringVal(tv.Value))
+															}
+														}
+													}
+												}
+												if len(names) == 0 {
+													// a private constructor of the closure: the case clauses of its call sites
+													if dobj, ok := info.Defs[gi.decl.Name].(*types.Func); ok {
+														for _, f := range gi.pkg.Syntax {
+															ast.Inspect(f, func(y ast.Node) bool {
+																hc, ok := y.(*ast.CallExpr)
+																if !ok {
+																	return true
+																}
+																if cal := Callee(info, hc); cal == nil || cal.Origin() != dobj.Origin() {
+																	return true
+																}
+																for q := c.Parent(hc); q != nil; q = c.Parent(q) {
+																	if cc, ok := q.(*ast.CaseClause); ok {
+																		for _, e := range cc.List {
+																			if tv := info.Types[e]; tv.Value != nil && tv.Value.Kind() == constant.String {
+																				names = append(names, constant.StringVal(tv.Value))
+																			}
+																		}
+																		break
+																	}
+																}
+																return true
+															})
+														}
+													}
+												}
+												allPure := len(names) > 0
+												for _, nm := range names {
+													reg := false
+													for _, f := range gi.pkg.Syntax {
+														ast.Inspect(f, func(y ast.Node) bool {
+															rc, ok := y.(*ast.CallExpr)
+															if !ok || len(rc.Args) < 3 {
+																return true
+															}
+															rs, ok := ast.Unparen(rc.Fun).(*ast.SelectorExpr)
+															if !ok || !strings.HasPrefix(rs.Sel.Name, "AddOp") && rs.Sel.Name != "AddSimpleOp" {
+																return true
+															}
+															ai := 0
+															if rs.Sel.Name == "AddOpBehind" {
+																ai = 1
+															}
+															if tv := info.Types[rc.Args[ai]]; tv.Value == nil || tv.Value.Kind() != constant.String || constant.StringVal(tv.Value) != nm {
+																return true
+															}
+															switch rs.Sel.Name {
+															case "AddOp", "AddOpImpl", "AddSimpleOp":
+																reg = true
+															default:
+																if tv := info.Types[rc.Args[len(rc.Args)-1]]; tv.Value != nil && tv.Value.Kind() == constant.Bool && constant.BoolVal(tv.Value) {
+																	reg = true
+																}
+															}
+															return true
+														})
+													}
+													if !reg {
+														allPure = false
+													}
+												}
+												if allPure {
+													found = true
+												}
+											}
+										}
+									}
+								}
+								if !found {
+									missing = append(missing, "the IsPure flag of the operator whose implementation "+oid.Name+" is")
+								}
+							}
+						}
+						return true
+					}
+					if sel.Sel.Name != "Func" || !isNamed(info.TypeOf(sel.X), modPath+"/funcGen", "Function") {
 						return true
 					}
 					id, ok := ast.Unparen(sel.X).(*ast.Ident)
